@@ -97,4 +97,4 @@ def generate(chk, max_tokens, full="full", roots=("a",), simulate=None, depth=No
 def data_vars(e):
     """Variables a valuation must cover (arr is given a fixed array value by the spec)."""
     from . import exprs
-    return sorted(v for v in exprs.variables(e) if v != "arr" and not v.startswith("<func>"))
+    return sorted(v for v in exprs.variables(e) if v != "arr" and not v.startswith("<func>") and not v.startswith("<cond>"))
